@@ -551,6 +551,7 @@ def _subst(sql: str, mapping: dict[str, str]) -> str:
 
 def _norm(sql: str) -> str:
     sql = re.sub(r"--[^\n]*", " ", sql)  # line comments would swallow the rest of the statement once newlines are gone
+    sql = re.sub(r"/\*.*?\*/", " ", sql, flags=re.S)  # block comments (e.g. the per-run marker of solve_connected_components) are not SQL
     return " ".join(sql.split())
 
 
